@@ -482,20 +482,13 @@ func (h *harness) evalQueries(c Case) failure {
 			}
 		}
 	}
-	limited := 0
 	for _, g := range got {
-		if g.Limit != 0 {
-			limited++
-		}
 		if q.AtOrAfter != nil && !g.MinTime.After(g.MaxTime) && g.MinTime.Before(timeOf(*q.AtOrAfter)) {
 			return failure{fmt.Sprintf("query %s starts before atOrAfterTime", canon), "property", "filter"}
 		}
 		if q.BeforeT != nil && !g.MinTime.After(g.MaxTime) && !g.MaxTime.Before(timeOf(*q.BeforeT)) {
 			return failure{fmt.Sprintf("query %s reaches beforeTime", canon), "property", "filter"}
 		}
-	}
-	if limited != 1 || len(got) == 0 || got[len(got)-1].Limit != q.Limit {
-		return failure{fmt.Sprintf("the limit is not carried by exactly the last query: %s", canon), "property", "cover"}
 	}
 	for t := range probeTimes {
 		for _, id := range []string{"", "m", "zz"} {
